@@ -34,4 +34,23 @@ PROPS = {
             ]
         ],
     },
+    "C12": {
+        "files": ["a2lfile/src/checker.rs"],
+        "trusted": T_STD + ["z3 floating-point theory (IEEE-754 binary64, RNE) for f64 arithmetic"],
+        "assumptions": ["coefficients: zero or magnitude in [1e-6, 1e6], either sign (the property's grid); RAT_FUNC b != 0 and f != 0",
+                        "LINEAR/RAT_FUNC oracles are compared bit-exactly first (decided by term identity), numerically second; the RAT_FUNC oracle uses the operation order documented in the code comment x = f*(y/b) - c/b",
+                        "which data type applies (dispatch in check_measurement etc.) is covered under C11's harnesses, not here"],
+        "jobs": [
+            {"engine": "E2", "module": "checker", "harness": "h_c12_linear", "functions": ["checker::calc_compu_method_limits", "checker::get_datatype_limits"],
+             "bound": "all 11 data types x all f64 a,b in the coefficient grid (no other bound)", "timeout": 240, "must_cover": ["negative slope", "positive slope"]},
+            {"engine": "E2", "module": "checker", "harness": "h_c12_ratfunc", "functions": ["checker::calc_compu_method_limits"],
+             "bound": "all 11 data types x all f64 b,c,f in the coefficient grid, b,f != 0", "timeout": 240, "must_cover": ["negative b"]},
+            {"engine": "E2", "module": "checker", "harness": "h_c12_identity_and_tables", "functions": ["checker::calc_compu_method_limits"],
+             "bound": "11 data types x {none, IDENTICAL, TAB_INTP, TAB_NOINTP, TAB_VERB} x arbitrary coefficient values", "timeout": 120},
+            {"engine": "E2", "module": "checker", "harness": "h_c12_unevaluated_never_error", "functions": ["checker::calc_compu_method_limits", "checker::check_limits_valid"],
+             "bound": "11 data types x {FORM, general RAT_FUNC with arbitrary finite coefficients} x arbitrary finite declared limits", "timeout": 240},
+            {"engine": "E2", "module": "checker", "harness": "h_c12_limits_valid", "functions": ["checker::check_limits_valid"],
+             "bound": "calculated range = raw range of each of the 11 data types; all finite declared limits inside / clearly outside (10x tolerance)", "timeout": 240},
+        ],
+    },
 }
